@@ -56,12 +56,12 @@ package mempool
 //@ ensures[miss] !has(fees, payer) ==> !result1 && uint256.u256(result0.balance) == utilBal(feer, payer.primary, payer.secondary) && uint256.u256(result0.feeSum) == 0 && utilBal(feer, payer.primary, payer.secondary) >= 0 && utilBal(feer, payer.primary, payer.secondary) < 1 << 200
 
 //@ func (*Pool).tryAddSendersFee
-//@ requires mp != nil && mp.fees != nil && feer != nil && wfTx(tx) && smallFees(mp, payerOf(tx))
+//@ requires mp != nil && mp.fees != nil && feer != nil && wfTx(tx)
 //@ modifies mp.fees[payerOf(tx)]
 //@ ensures[cached] has(mp.fees, payerOf(tx)) && uint256.u256(mp.fees[payerOf(tx)].balance) == old(balOf(mp, feer, payerOf(tx)))
-//@ ensures[check] needCheck ==> result == (old(balOf(mp, feer, payerOf(tx))) >= fee(tx) && old(balOf(mp, feer, payerOf(tx))) >= old(feeSumOf(mp, payerOf(tx))) + fee(tx))
+//@ ensures[check] needCheck ==> result == (old(balOf(mp, feer, payerOf(tx))) >= fee(tx) && old(balOf(mp, feer, payerOf(tx))) >= (old(feeSumOf(mp, payerOf(tx))) + fee(tx)) % uint256.two256())
 //@ ensures[nocheck] !needCheck ==> result
-//@ ensures[added] result ==> uint256.u256(mp.fees[payerOf(tx)].feeSum) == old(feeSumOf(mp, payerOf(tx))) + fee(tx)
+//@ ensures[added] result ==> uint256.u256(mp.fees[payerOf(tx)].feeSum) == (old(feeSumOf(mp, payerOf(tx))) + fee(tx)) % uint256.two256()
 //@ ensures[rejected] !result ==> uint256.u256(mp.fees[payerOf(tx)].feeSum) == old(feeSumOf(mp, payerOf(tx)))
 
 // Pool invariants that the conflict check relies on (stated at entry; their
@@ -83,3 +83,41 @@ package mempool
 //@ loop 2 invariant[fresh] (conflictsToBeRemoved == nil && len(conflictsToBeRemoved) == 0) || fresh(conflictsToBeRemoved)
 //@ loop 4 invariant[sum] uint256.u256(expectedPayerFee.feeSum) == (uint256.u256(actualPayerFee.feeSum) - sumFees(conflictsToBeRemoved, $i, p)) % uint256.two256()
 //@ loop 4 invariant[bal] uint256.u256(expectedPayerFee.balance) == uint256.u256(actualPayerFee.balance)
+
+// Structural pool invariants needed by removal and insertion.
+//@ spec wfItems(mp *Pool) bool = forall(j, 0, len(mp.verifiedTxes), mp.verifiedTxes[j].txn != nil && wfTx(mp.verifiedTxes[j].txn) && transaction.wfAttrs(mp.verifiedTxes[j].txn))
+//@ spec wfCount(mp *Pool) bool = len(mp.verifiedMap) == len(mp.verifiedTxes)
+//@ spec wfOracle(mp *Pool) bool = forallkeys(mp.oracleResp, id, has(mp.oracleResp, id) ==> has(mp.verifiedMap, mp.oracleResp[id]))
+//@ spec mapsOK(mp *Pool) bool = mp != nil && mp.fees != nil && mp.verifiedMap != nil && mp.conflicts != nil && mp.oracleResp != nil
+
+//@ func (*Pool).containsKey
+//@ inline
+
+//@ func (*Pool).removeConflictsOf
+//@ requires mapsOK(mp) && tx != nil && transaction.wfAttrs(tx)
+//@ modifies mp.conflicts, elems(util.Uint256)
+
+//@ func (*Pool).removeFromMapWithFeesAndAttrs
+//@ requires mapsOK(mp) && itm.txn != nil && wfTx(itm.txn) && transaction.wfAttrs(itm.txn)
+//@ modifies mp.verifiedMap, mp.fees, mp.conflicts, mp.oracleResp, elems(util.Uint256)
+//@ ensures[maplen] len(mp.verifiedMap) == old(len(mp.verifiedMap)) - ite(old(has(mp.verifiedMap, transaction.txHash(itm.txn))), 1, 0)
+
+//@ func (*Pool).removeInternal
+//@ requires mapsOK(mp) && wfItems(mp) && wfCount(mp)
+//@ modifies mp.verifiedTxes, elems(item), mp.verifiedMap, mp.fees, mp.conflicts, mp.oracleResp, elems(util.Uint256)
+//@ ensures[absent] !old(has(mp.verifiedMap, hash)) ==> unchanged(mp.verifiedTxes) && unchanged(mp.verifiedMap) && unchanged(mp.conflicts) && unchanged(mp.oracleResp) && unchanged(mp.fees)
+//@ ensures[present] old(has(mp.verifiedMap, hash)) ==> len(mp.verifiedTxes) == old(len(mp.verifiedTxes)) - 1
+//@ ensures[len] len(mp.verifiedTxes) <= old(len(mp.verifiedTxes))
+//@ ensures[items] wfItems(mp) && wfCount(mp)
+//@ loop 0 invariant (($i == 0 && num == 0) || num == $i - 1) && $i <= len(mp.verifiedTxes)
+
+//@ func (*Pool).Add
+//@ opt callbacks pure
+//@ requires (data == nil || len(data) >= 1) && mapsOK(mp) && fee != nil && wfTx(t) && transaction.wfAttrs(t) && wfPoolTx(mp) && wfConflicts(mp) && wfItems(mp) && wfCount(mp) && wfOracle(mp) && len(mp.verifiedTxes) <= mp.capacity
+//@ modifies mp.verifiedTxes, elems(item), mp.verifiedMap, mp.fees, mp.conflicts, mp.oracleResp, elems(util.Uint256)
+//@ ensures[atomic] result != nil ==> unchanged(mp.verifiedTxes) && unchanged(mp.verifiedMap) && unchanged(mp.conflicts) && unchanged(mp.oracleResp)
+//@ ensures[capacity] result == nil ==> len(mp.verifiedTxes) <= mp.capacity
+//@ ensures[inserted] result == nil ==> has(mp.verifiedMap, transaction.txHash(t)) && mp.verifiedMap[transaction.txHash(t)] == t
+//@ loop 0 invariant[wf] mapsOK(mp) && wfItems(mp) && wfCount(mp) && mp.capacity == old(mp.capacity) && len(mp.verifiedTxes) <= old(len(mp.verifiedTxes))
+//@ loop 0 invariant[atomic] len(mp.verifiedTxes) < old(len(mp.verifiedTxes)) || (unchanged(mp.verifiedTxes) && unchanged(mp.verifiedMap) && unchanged(mp.conflicts) && unchanged(mp.oracleResp))
+//@ loop 1 invariant[wf] mapsOK(mp) && len(mp.verifiedTxes) <= mp.capacity && has(mp.verifiedMap, transaction.txHash(t)) && mp.verifiedMap[transaction.txHash(t)] == t
